@@ -123,6 +123,7 @@ impl<'a> Dfa<'a> {
                     self.config.is_output_colorized,
                     self.config.is_verbose_mode_enabled,
                 );
+                self.alphabet.insert(new_grapheme.clone());
                 self.graph
                     .update_edge(current_state, next_state, new_grapheme);
                 return Some(next_state);
@@ -217,8 +218,8 @@ impl<'a> Dfa<'a> {
                 let edge = self.graph.find_edge(parent_state, state).unwrap();
                 let grapheme = self.graph.edge_weight(edge).unwrap();
                 if grapheme.chars() == label.chars()
-                    && (grapheme.maximum() == label.maximum()
-                        || grapheme.minimum() == label.minimum())
+                    && grapheme.maximum() == label.maximum()
+                    && grapheme.minimum() == label.minimum()
                 {
                     x.insert(parent_state);
                     break;
